@@ -1,11 +1,12 @@
 //! Package level of C18 (I->S): the harness records what the real encoder/decoder did as NDJSON events; the verdicts
 //! are decided by TLC (spec/codec/CodecLaws.tla) from that history.
-//!   pkg-encode <src.dora> <out.pkg>            front end in-process (check_program + emit_program) + the driver's bincode config
-//!   pkg-laws <pkg> <name> <events> <seed> <ntrunc|all> <nflips> <workdir> <nsave> [<program-sha of the encoder>]
+//!   pkg-encode <src.dora> <out.pkg> [<name> <events>]   front end in-process (check_program + emit_program) + the driver's bincode config
+//!   pkg-laws <pkg> <name> <events> <seed> <ntrunc|all|none> <nflips> <workdir> <nsave>
 //!   pkg-child <pkg> <faults> <from> <to>       decodes corrupted copies; a crash only takes this process down
 //! Every decode of corrupted bytes runs in a child (`pkg-child`): a damaged length prefix can abort through the allocator.
 use crate::sha::sha256;
 use dora_bytecode::{Program, decode_program_from_bytes};
+#[cfg(feature = "frontend")]
 use dora_frontend::sema::{Sema, SemaCreationParams};
 use serde_json::{Value, json};
 use std::io::Write;
@@ -19,9 +20,15 @@ fn encode(p: &Program) -> Vec<u8> {
 
 fn program_sha(p: &Program) -> String { sha256(format!("{:?}", p).as_bytes()) }
 
+#[cfg(not(feature = "frontend"))]
+pub fn encode_cmd(_args: &[String]) -> i32 { eprintln!("built without the front end"); 2 }
+
+#[cfg(feature = "frontend")]
 pub fn encode_cmd(args: &[String]) -> i32 {
     let src = PathBuf::from(&args[0]);
-    let mut sa = Sema::new(SemaCreationParams::new().set_program_path(src));
+    let boots = args.iter().any(|a| a == "--boots");
+    let params = SemaCreationParams::new().set_program_path(src);
+    let mut sa = Sema::new(if boots { params.set_boots(true) } else { params });
     let ok = dora_frontend::check_program(&mut sa);
     if !ok || sa.diag.borrow().has_errors() {
         println!("{}", json!({"kind":"encoded","ok":false}));
@@ -31,8 +38,21 @@ pub fn encode_cmd(args: &[String]) -> i32 {
     let bytes = encode(&prog);
     std::fs::write(&args[1], &bytes).expect("write package");
     let nbody = prog.functions.iter().filter(|f| f.bytecode.is_some()).count();
-    println!("{}", json!({"kind":"encoded","ok":true,"program_sha":program_sha(&prog),"bytes_sha":sha256(&bytes),"len":bytes.len(),
-        "functions":prog.functions.len(),"bodies":nbody}));
+    let (hp, hb) = (program_sha(&prog), sha256(&bytes));
+    let mut law = json!(null);
+    if args.len() >= 4 {
+        // Decode(Encode(p)) = p and Encode(Decode(b)) = b for the program the front end just produced
+        let name = &args[2];
+        let rec = |op: &str, i: &str, o: &str, res: &str| json!({"op":op,"pkg":name,"in":i,"out":o,"res":res,"cls":"","via":"inproc","k":0});
+        let mut ev = vec![rec("encode", &hp, &hb, "ok")];
+        match decode_program_from_bytes(&bytes) {
+            Ok(p1) => { let b1 = encode(&p1); ev.push(rec("decode", &hb, &program_sha(&p1), "ok")); ev.push(rec("reencode", &program_sha(&p1), &sha256(&b1), "ok")); law = json!(b1 == bytes); }
+            Err(e) => { let mut r = rec("decode", &hb, "", "err"); r["cls"] = json!(e); ev.push(r); law = json!(false); }
+        }
+        write_events(&args[3], &ev);
+    }
+    println!("{}", json!({"kind":"encoded","ok":true,"program_sha":hp,"bytes_sha":hb,"len":bytes.len(),
+        "functions":prog.functions.len(),"bodies":nbody,"roundtrip_bytes_equal":law}));
     0
 }
 
@@ -45,7 +65,12 @@ fn panic_class(loc: &str) -> String {
     let line = parts.next().unwrap_or("");
     let path = parts.next().unwrap_or(loc);
     let file = path.rsplit('/').next().unwrap_or(path);
-    if path.contains("/rustc/") || path.contains("library/") { format!("std:{}", file) } else { format!("{}:{}", file, line) }
+    if path.contains("/rustc/") || path.contains("library/") {
+        // toolchain files: directory/file without the line (it moves between toolchain versions)
+        let mut it = path.rsplit('/');
+        let (f, d) = (it.next().unwrap_or(""), it.next().unwrap_or(""));
+        format!("std:{}/{}", d, f)
+    } else { format!("{}:{}", file, line) }
 }
 
 fn corrupt(base: &[u8], fault: &str) -> Vec<u8> {
@@ -53,6 +78,9 @@ fn corrupt(base: &[u8], fault: &str) -> Vec<u8> {
     let n: usize = n.parse().unwrap();
     match k {
         "T" => base[..n].to_vec(),
+        // trailing bytes: n = 0: one 0x00, 1: one 0xFF, 2: a copy of the first 9 bytes, 3: the whole package again, else n pseudo-random bytes
+        "A" => { let mut b = base.to_vec(); match n { 0 => b.push(0), 1 => b.push(0xFF), 2 => b.extend_from_slice(&base[..9.min(base.len())]), 3 => b.extend_from_slice(base),
+                 _ => { let mut r = Rng(n as u64); for _ in 0..n { b.push(r.next() as u8); } } } b }
         _ => { let mut b = base.to_vec(); b[n / 8] ^= 1 << (n % 8); b }
     }
 }
@@ -75,7 +103,7 @@ pub fn child_cmd(args: &[String]) -> i32 {
             Err(e) => format!("err {}", e.replace('\n', " ").chars().take(100).collect::<String>()),
             Ok(p) => {
                 let re = encode(&p);
-                if re == base2 { "same".to_string() } else { format!("ok {} {}", sha256(&re), if re == b2 { "canonical" } else { "noncanonical" }) }
+                if re == base2 { "same".to_string() } else { format!("ok {:016x}{:016x}{:016x}{:016x} {}", fnv(&re, 1), fnv(&re, 2), fnv(&re, 3), fnv(&re, 4), if re == b2 { "canonical" } else { "noncanonical" }) }
             }
         });
         let line = match r { Ok(s) => s, Err(_) => format!("panic {}", panic_class(&LAST_PANIC.lock().unwrap())) };
@@ -84,6 +112,14 @@ pub fn child_cmd(args: &[String]) -> i32 {
         o.flush().unwrap();
     }
     0
+}
+
+/// cheap identity of a program decoded from corrupted bytes (4 x FNV-1a 64 with different offsets; sha256 is too slow
+/// unoptimized for tens of thousands of 90 KB packages)
+fn fnv(data: &[u8], salt: u64) -> u64 {
+    let mut h: u64 = 0xcbf29ce484222325 ^ salt.wrapping_mul(0x9E3779B97F4A7C15);
+    for &b in data { h ^= b as u64; h = h.wrapping_mul(0x100000001b3); }
+    h
 }
 
 struct Rng(u64);
@@ -145,14 +181,14 @@ fn run_children(exe: &str, pkg: &str, faults_file: &str, from: usize, to: usize,
 pub fn laws_cmd(args: &[String]) -> i32 {
     let (pkg, name, events, seed, trunc, nflips, work, nsave) =
         (&args[0], &args[1], &args[2], args[3].parse::<u64>().unwrap(), &args[4], args[5].parse::<usize>().unwrap(), &args[6], args[7].parse::<usize>().unwrap());
-    let encoder_sha = args.get(8).cloned();
     let exe = std::env::current_exe().unwrap().to_string_lossy().to_string();
     std::fs::create_dir_all(work).unwrap();
     let b = std::fs::read(pkg).expect("package");
     let hb = sha256(&b);
     let mut ev: Vec<Value> = Vec::new();
     let rec = |op: &str, i: &str, o: &str, extra: Value| -> Value {
-        let mut r = json!({"op":op,"pkg":name,"in":i,"out":o,"cls":"","via":"","k":0});
+        let (out, res) = if o.len() == 64 { (o, "ok") } else if let Some(h) = o.strip_prefix("ok:") { (h, "ok") } else { ("", o) };
+        let mut r = json!({"op":op,"pkg":name,"in":i,"out":out,"res":res,"cls":"","via":"","k":0});
         if let Some(m) = extra.as_object() { for (k, v) in m { r[k] = v.clone(); } }
         r
     };
@@ -162,7 +198,6 @@ pub fn laws_cmd(args: &[String]) -> i32 {
         Err(e) => { ev.push(rec("decode", &hb, "err", json!({"cls": e}))); write_events(events, &ev); println!("{}", json!({"kind":"summary","decode_failed":true})); return 0; }
     };
     let hp = program_sha(&p);
-    if let Some(es) = &encoder_sha { ev.push(rec("encode", es, &hb, json!({}))); }
     ev.push(rec("decode", &hb, &hp, json!({})));
     let b2 = encode(&p);
     ev.push(rec("reencode", &hp, &sha256(&b2), json!({})));
@@ -175,6 +210,7 @@ pub fn laws_cmd(args: &[String]) -> i32 {
     let mut faults: Vec<String> = Vec::new();
     let len = b.len();
     if trunc == "all" { for k in 0..len { faults.push(format!("T {}", k)); } }
+    else if trunc == "none" {}
     else {
         let n: usize = trunc.parse().unwrap();
         let edge = 768.min(len / 2);
@@ -183,14 +219,28 @@ pub fn laws_cmd(args: &[String]) -> i32 {
         ks.sort(); ks.dedup();
         for k in ks { faults.push(format!("T {}", k)); }
     }
-    let ntrunc = faults.len();
+    if trunc != "none" { for n in [0usize, 1, 2, 3, 5, 64, 4096] { faults.push(format!("A {}", n)); } }
+    let ntrunc = faults.iter().filter(|f| f.starts_with('T')).count();
+    let nfirst_flip = faults.len();
     let mut bits: Vec<usize> = Vec::new();
-    for _ in 0..nflips { bits.push(rng.below(len as u64 * 8) as usize); }
+    if nflips >= len * 8 { bits = (0..len * 8).collect(); }
+    else {
+        for _ in 0..nflips { bits.push(rng.below(len as u64 * 8) as usize); }
+        // targeted: bincode's varint width markers (251 = u16, 252 = u32, 253 = u64 follows): bytes one bit away from a
+        // marker, and the payload bytes behind existing markers - a damaged length prefix is the interesting fault class
+        let mut cand: Vec<usize> = Vec::new();
+        for i in 0..len {
+            for bit in 0..8 { if (251..=253).contains(&(b[i] ^ (1 << bit))) { cand.push(i * 8 + bit); } }
+            if (251..=253).contains(&b[i]) { for j in 1..=2 { if i + j < len { cand.push((i + j) * 8 + 7); cand.push((i + j) * 8 + 6); } } }
+        }
+        let want = (nflips / 2).min(cand.len());
+        for _ in 0..want { let k = rng.below(cand.len() as u64) as usize; bits.push(cand[k]); }
+    }
     bits.sort(); bits.dedup();
     for bit in &bits { faults.push(format!("F {}", bit)); }
     let ff = format!("{}/faults.txt", work);
     std::fs::write(&ff, faults.join("\n") + "\n").unwrap();
-    let nthreads = std::thread::available_parallelism().map(|n| n.get()).unwrap_or(4).min(12).max(1);
+    let nthreads = std::env::var("VBC_THREADS").ok().and_then(|s| s.parse().ok()).unwrap_or_else(|| std::thread::available_parallelism().map(|n| n.get()).unwrap_or(4).min(12)).max(1);
     let chunk = (faults.len() + nthreads - 1) / nthreads.max(1);
     let mut handles = Vec::new();
     for t in 0..nthreads {
@@ -203,6 +253,8 @@ pub fn laws_cmd(args: &[String]) -> i32 {
     for h in handles { let (from, v) = h.join().unwrap(); for (j, o) in v.into_iter().enumerate() { outcomes[from + j] = o; } }
 
     let (mut t_refused, mut f_refused, mut f_same, mut f_diff, mut f_crash, mut t_bad, mut noncanon) = (0u64, 0u64, 0u64, 0u64, 0u64, 0u64, 0u64);
+    let (mut ext_tried, mut ext_refused) = (0u64, 0u64);
+    let _ = nfirst_flip;
     let mut saved: Vec<Value> = Vec::new();
     let mut classes: std::collections::BTreeMap<String, u64> = Default::default();
     for (i, f) in faults.iter().enumerate() {
@@ -222,6 +274,10 @@ pub fn laws_cmd(args: &[String]) -> i32 {
         if fk == "T" {
             if out == "err" { t_refused += 1 } else { t_bad += 1 }
             ev.push(rec("truncate", &hb, &out, json!({"k": n, "cls": cls})));
+        } else if fk == "A" {
+            ext_tried += 1;
+            if out == "err" { ext_refused += 1 }
+            ev.push(rec("extend", &hb, &out, json!({"k": n, "cls": cls})));
         } else {
             match out.as_str() { "err" => f_refused += 1, "same" => f_same += 1, "panic" | "abort" | "hang" | "lost" => { f_crash += 1; *classes.entry(format!("{}:{}", out, cls)).or_default() += 1; } _ => f_diff += 1 }
             ev.push(rec("flip", &hb, &out, json!({"k": n, "cls": cls})));
@@ -234,7 +290,7 @@ pub fn laws_cmd(args: &[String]) -> i32 {
     }
     write_events(events, &ev);
     println!("{}", json!({"kind":"summary","pkg":name,"len":len,"functions":p.functions.len(),"bodies":nbody,"bytes_sha":hb,"program_sha":hp,
-        "reencode_equal": b2 == b, "truncations_tried": ntrunc, "truncations_refused": t_refused, "truncations_not_refused": t_bad,
+        "reencode_equal": b2 == b, "truncations_tried": ntrunc, "truncations_refused": t_refused, "truncations_not_refused": t_bad, "extensions_tried": ext_tried, "extensions_refused": ext_refused,
         "flips_tried": bits.len(), "flips_refused": f_refused, "flips_same_program": f_same, "flips_accepted_different": f_diff,
         "flips_noncanonical": noncanon, "flips_crashed": f_crash, "crash_classes": classes, "saved": saved}));
     0
@@ -243,24 +299,4 @@ pub fn laws_cmd(args: &[String]) -> i32 {
 fn write_events(path: &str, ev: &[Value]) {
     let mut f = std::fs::OpenOptions::new().create(true).append(true).open(path).expect("events file");
     for e in ev { writeln!(f, "{}", e).unwrap(); }
-}
-
-/// pkg-bodies <pkg>: every bytecode body of a real package re-read with the real reader and re-written through the
-/// real writer's public API is out of scope (the writer needs labels); here: the reader consumes every body exactly.
-pub fn bodies_cmd(args: &[String]) -> i32 {
-    std::panic::set_hook(Box::new(|_| {}));
-    let b = std::fs::read(&args[0]).expect("package");
-    let p = decode_program_from_bytes(&b).expect("valid package");
-    let (mut bodies, mut insts, mut bad) = (0u64, 0u64, Vec::new());
-    for (i, f) in p.functions.iter().enumerate() {
-        let Some(bc) = &f.bytecode else { continue };
-        bodies += 1;
-        let code = bc.code().to_vec();
-        match std::panic::catch_unwind(move || dora_bytecode::BytecodeReader::new(&code).count()) {
-            Ok(n) => insts += n as u64,
-            Err(_) => if bad.len() < 5 { bad.push(json!({"function": i, "name": f.name})) },
-        }
-    }
-    println!("{}", json!({"kind":"summary","bodies":bodies,"instructions":insts,"reader_failed":bad}));
-    0
 }
